@@ -327,7 +327,7 @@ public:
         for (int t = 0; ce->file.size() > 20000 && t < 3; t++) ce = &g_corpus[r.below(g_corpus.size())];
         op["corpus"] = ce->name;
       } else if (k < 6) op["hex"] = sim::toHex(unwrittenTemplate(r));
-      else { gen::ImgCfg ic; ic.maxWords = 96; Rng ir = r.fork(3); op["hex"] = sim::toHex(gen::makeImage(ir, ic)); }
+      else { gen::ImgCfg ic; ic.maxWords = 96; ic.undefPerMille = 25; Rng ir = r.fork(3); op["hex"] = sim::toHex(gen::makeImage(ir, ic)); }   // more undefined bytes and call numbers than elsewhere: hexsim's error path is part of C12
       if (!op.has("corpus") && r.chance(1, 4)) op["tail_cut"] = (unsigned long long)(1 + r.below(3));
       else if (!op.has("corpus") && r.chance(1, 2)) {
         // A symbol table behind the image, as the assembler writes for PROC/FUNC: the trace labels
@@ -349,7 +349,8 @@ public:
     {
       std::string in;
       if (ce && !ce->inputs.empty() && r.chance(2, 3)) in = ce->inputs[r.below(ce->inputs.size())];
-      else { size_t n = (size_t)r.below(8); for (size_t q = 0; q < n; q++) in.push_back((char)r.below(256)); }
+      else { size_t n = (size_t)r.below(8); if (r.chance(1, 40)) n = (r.chance(1, 2) ? 4094 : 8190) + (size_t)r.below(5);     // around a 4096-byte buffer boundary
+             for (size_t q = 0; q < n; q++) in.push_back((char)(n > 100 ? 32 + r.below(95) : r.below(256))); }
       if (r.chance(1, 3) && !in.empty()) in.resize((size_t)r.below(in.size()));
       Json op = Json::object(); op["op"] = "input"; op["hex"] = sim::toHex(in); ops.push(op);
     }
@@ -652,7 +653,13 @@ public:
     if (v.tailCut) o.count("fault.file_ends_inside_last_word");
     if (v.cycleBase) { o.count("fault.cycle_counter_starts_high"); sim::g_log.ev("cycle_base", v.cycleBase); }
     // Where the defined part of the run ends: EXIT, or `steps` instructions (domain cut / budget).
-    uint64_t stopAfter = exited ? 0 : steps;
+    // A run that ends at an undefined opcode, OPR operand or system-call number ends in hexsim's own
+    // error path (a runtime_error with a fixed text): that is behaviour of "the same binary" too, and
+    // it must not depend on the host or on -t.  Any other end of the domain (an access outside
+    // hexsim's array) is undefined behaviour of the simulator and is never run into.
+    bool throwsAtEnd = !exited && (cut == "undef_opcode" || cut == "undef_opr" || cut == "undef_syscall");
+    if (throwsAtEnd) o.count("probe.run_ends_in_hexsim_error_path");
+    uint64_t stopAfter = (exited || throwsAtEnd) ? 0 : steps;
     std::vector<Host> hosts; std::vector<int> tool;
     hosts.push_back(Host()); tool.push_back(0);                // pristine, library level
     for (size_t k = 0; k < v.hosts.size(); k++) { hosts.push_back(v.hosts[k]); tool.push_back(v.toolLevel[k]); }
@@ -674,7 +681,9 @@ public:
       if (hung(r.t)) { o.note = "skipped:watchdog"; o.count("probe.watchdog_hit"); return; }
       std::string why;
       if (r.t.kind == sim::Trapped::CRASHED) why = "hexsim " + r.t.str();
-      else if (r.t.kind == sim::Trapped::THREW) why = "hexsim threw '" + r.t.what + "' inside the ISA's defined domain";
+      else if (r.t.kind == sim::Trapped::THREW && !throwsAtEnd) why = "hexsim threw '" + r.t.what + "' inside the ISA's defined domain";
+      else if (throwsAtEnd && r.t.kind != sim::Trapped::THREW) why = "hexsim " + r.t.str() + " at an undefined " + cut.substr(6) + " (it reports an error in the pristine host)";
+      else if (throwsAtEnd && k > 0 && r.t.what != full[0].t.what) why = "hexsim's error text differs: '" + r.t.what + "' vs '" + full[0].t.what + "'";
       else if (r.out != rio.out) why = "stdout '" + clip(r.out, 24) + "' (" + std::to_string(r.out.size()) + " bytes), ISA model '" + clip(rio.out, 24) + "' (" + std::to_string(rio.out.size()) + " bytes)";
       else if (r.consumed != rio.inPos) why = "stdin consumed " + std::to_string(r.consumed) + ", ISA model " + std::to_string(rio.inPos);
       else if (exited && (asTool ? (r.t.status & 0xFF) != (int)(m.exitValue & 0xFF) : (uint32_t)r.t.status != m.exitValue)) why = "exit status " + std::to_string(r.t.status) + ", ISA model " + std::to_string((int32_t)m.exitValue);
